@@ -314,6 +314,22 @@ def oracle(ctx):
                           expected='TemplateError with token %r' % nm, actual=r,
                           finding='D-05a2' if nm.startswith('__') and 'tal:repeat' in src else None)
     # D-05f: a macro call (`econtext.update(rcontext)` afterwards) makes a global visible again inside an element that shadows it
+    # names that an *earlier* template of this process was given as extra builtins are ordinary variable names for every other template
+    from chameleon import PageTemplate
+    PageTemplate('<p>${label} ${item}</p>', extra_builtins={'label': 'B1', 'item': 'B2', 'q9': 'B3'})()
+    later = [('<p tal:define="label \'L\'">${label}</p>', {}, '<p>L</p>'), ('<b tal:repeat="item [1, 2]">${item}</b>', {}, '<b>1</b>\n<b>2</b>'),
+             ('<p>${label}</p>', {'label': 'K'}, '<p>K</p>'), ('<p>${label | \'F\'}</p>', {'label': 'K'}, '<p>K</p>'),
+             ('<p tal:define="global q9 7">${q9}</p>[${q9}]', {}, '<p>7</p>[7]'), ('<p>${q9 | \'undefined\'}</p>', {}, '<p>undefined</p>')]
+    for src, kw, want in later:
+        ctx.count('evaluations')
+        try:
+            got = PageTemplate(src)(**kw)
+        except Exception as e:
+            got = {'exc': type(e).__name__, 'msg': str(e).split('\n')[0][:100]}
+        if got != want:
+            ctx.violation('a name that another template was given as an extra builtin earlier in the process is an ordinary variable name here',
+                          {'src': src, 'kwargs': repr(kw), 'earlier': "PageTemplate(…, extra_builtins={'label': …, 'item': …, 'q9': …})"},
+                          expected=want, actual=got)
     ms = [multi_case(ctx.rng) for _ in range(ctx.budget(300, 10000))]
     for (case, exp), r in zip(ms, pipeline.impl_many([m[0] for m in ms])):
         ctx.count('evaluations')
